@@ -67,7 +67,7 @@ def run_check(prop, tier):
         return 2
     a = ctx.acc
     path = os.path.join(core.ROOT, "evidence", f"{prop}.json")
-    if not validate_evidence(path):
+    if not validate_evidence(path) and rc == 0:
         return 2
     print(
         f"{prop} {tier} seed={seed}: evaluations={a.n} distinct={len(a.keys)} states={a.states + len(a.state_keys)} "
